@@ -998,6 +998,50 @@ async fn check_order(
                     ),
                 ));
             } else {
+                // a filter on top of the limited query must not reach below the LIMIT: compare
+                // with the limited result filtered here (on the first sort key, so that ties at
+                // the cut do not matter)
+                if q.group_by.is_none() {
+                    let (ki, _) = keys[0];
+                    let pivot = lrow.iter().map(|r| &r[ki]).filter(|v| !v.is_null()).min().cloned();
+                    if let Some(pivot) = pivot {
+                        let kname = &q.order[0].col;
+                        // (the derived table needs named columns)
+                        let mut inner = full.clone();
+                        inner.cols = def.cols.iter().map(|c| c.name.clone()).collect();
+                        let wrapped =
+                            format!("SELECT * FROM ({}) WHERE {kname} > {}", inner.sql(), pivot.sql());
+                        let w = db.exec(&wrapped).await;
+                        cx.stats.evaluations += 1;
+                        if let Some(wrow) = w.rows() {
+                            let mut want: Vec<Row> = lrow
+                                .iter()
+                                .filter(|r| !r[ki].is_null() && cmp_num(&r[ki], &pivot) == std::cmp::Ordering::Greater)
+                                .map(|r| vec![r[ki].clone()])
+                                .collect();
+                            let mut got: Vec<Row> = wrow.iter().map(|r| vec![r[ki].clone()]).collect();
+                            want.sort();
+                            got.sort();
+                            if want != got {
+                                cx.violate(Violation::new(
+                                    "C12",
+                                    "filter-over-limit-wrong",
+                                    Some(at),
+                                    format!(
+                                        "{wrapped}: keys [{}], but the limited query returns [{}] of which [{}] pass the filter",
+                                        rows_brief(&got, 12),
+                                        rows_brief(&key_proj(&lrow, &keys[..1]), 12),
+                                        rows_brief(&want, 12)
+                                    ),
+                                ));
+                                return;
+                            }
+                            cx.probe("filter-over-limit-checked");
+                        } else {
+                            cx.probe("filter-over-limit-query-failed");
+                        }
+                    }
+                }
                 // rows (not only keys) must come from the full result
                 let mut pool = brow.clone();
                 for r in &lrow {
